@@ -205,6 +205,7 @@ type Obl struct {
 	Model   string
 	Size    int
 	Text    string
+	Replay  *ReplayInfo
 }
 
 type Exec struct {
@@ -227,6 +228,7 @@ type Exec struct {
 	libUsed  map[string]bool
 	outside  string // non-empty: function left the supported subset
 	pureCellBase int
+	curReplay *ReplayInfo
 	trivialSeen map[string]bool
 	loopKinds map[string]bool
 	pureHeaps map[string]*Term
@@ -312,6 +314,9 @@ func (x *Exec) oblige(st *State, kind, label string, props []string, goal *Term,
 		x.trivialSeen[name] = true
 	} else {
 		o.Assumes = st.pc.list()
+	}
+	if kind == "ensures" || kind == "safety" {
+		o.Replay = x.curReplay
 	}
 	if pos.IsValid() {
 		p := x.w.prog.Fset.Position(pos)
